@@ -512,4 +512,20 @@ theorem dispatch_kevex (c : Model.X86.Ctx) (row : Row) (options : BitVec 32) (t0
           options (packRegVvvvv i0 i1) m imm 1) := by
   refine ⟨?_, ?_, ?_, ?_, ?_, ?_⟩ <;> intro h <;> simp [dispatch, h, sig3, sig4, Op.kind, Op.id, Op.rmSize, Op.immVal]
 
+/-! ### classes VexRmMr / VexRmMr_Lx (vmovaps, vmovups, vmovapd, vmovdqa*, vmovdqu* ...): loads are entries of the `rm` chunk (main opcode),
+stores are entries of the `mr` chunk (alternative opcode, LL kept: `finalOp` / `finalOpM` / `finalOpMrM`); the class switch: -/
+
+theorem dispatch_rmmr (c : Model.X86.Ctx) (row : Row) (options : BitVec 32) (t0 t1 i0 i1 : Nat) (m : Mem)
+    (henc : row.encoding = 0x83 ∨ row.encoding = 0x84) :
+    dispatch c row options (.reg t0 i0) (.reg t1 i1) .none .none =
+      emitVexEvexR c (if row.encoding = 0x84 then row.mainOp ||| opcodeLBySize ((Op.reg t0 i0).rmSize ||| (Op.reg t1 i1).rmSize) else row.mainOp)
+        options (r32 i0) (r32 i1) 0 0 ∧
+    dispatch c row options (.reg t0 i0) (.mem m) .none .none =
+      emitVexEvexM c (if row.encoding = 0x84 then row.mainOp ||| opcodeLBySize ((Op.reg t0 i0).rmSize ||| m.size) else row.mainOp)
+        options (r32 i0) m 0 0 ∧
+    dispatch c row options (.mem m) (.reg t1 i1) .none .none =
+      emitVexEvexM c (((if row.encoding = 0x84 then row.mainOp ||| opcodeLBySize (m.size ||| (Op.reg t1 i1).rmSize) else row.mainOp) &&& kLL_Mask) ||| row.altOp)
+        options (r32 i1) m 0 0 := by
+  rcases henc with h | h <;> refine ⟨?_, ?_, ?_⟩ <;> simp [dispatch, h, sig3, Op.kind, Op.id, Op.rmSize]
+
 end AsmjitVerif.Props.C01
